@@ -110,6 +110,12 @@ impl Mix {
                 m.create_index = 3;
                 m.restore = 0;
             }
+            "C38" => {
+                m.create_index = 10;
+                m.optimize = 5;
+                m.restore = 3;
+                m.overwrite = 3;
+            }
             _ => {}
         }
         m
@@ -400,6 +406,8 @@ pub struct Runner {
     /// history contained a compaction with deferred index remap while an index existed
     pub seen_defer_remap: bool,
     pub lin: crate::lineage::Lineage,
+    /// the table was dropped and re-created at the same URI within the session (C38 scenario)
+    pub recreated: bool,
 }
 
 impl Runner {
@@ -427,7 +435,16 @@ impl Runner {
             g.knobs.list_salt = rng.next_u64();
             g.knobs.delete_missing_ok = rng.chance(0.5);
         }
-        let party = Arc::new(Party::new(&w, 0, knobs.clone()));
+        let hk = if cfg.prop == "C42" && hk == HandlerKind::External { HandlerKind::CondPut } else { hk };
+        let party = if cfg.prop == "C38" {
+            let sz = *rng.pick(&[0usize, 2_000, 64 << 20]);
+            let sz2 = *rng.pick(&[0usize, 2_000, 64 << 20]);
+            res.knobs.insert("index_cache_bytes".into(), sz.to_string());
+            res.knobs.insert("metadata_cache_bytes".into(), sz2.to_string());
+            Arc::new(Party::with_caches(&w, 0, knobs.clone(), sz, sz2))
+        } else {
+            Arc::new(Party::new(&w, 0, knobs.clone()))
+        };
         let mut ctx = Ctx::new(party, URI, hk);
         ctx.stable_row_ids = cfg.opt_bool("stable").unwrap_or_else(|| rng.chance(0.5));
         ctx.v2_paths = cfg.opt_bool("v2paths").unwrap_or_else(|| rng.chance(0.8));
@@ -467,7 +484,7 @@ impl Runner {
                 history.insert(ds.version().version, st.clone());
                 let mut lin = crate::lineage::Lineage::new();
                 lin.init(&st, ds.version().version);
-                Ok(Self { cfg, rng, w, ctx, ds, st, history, gen, res, next_actor: 100, step: 0, seen_col_rewrite: false, seen_defer_remap: false, lin })
+                Ok(Self { cfg, rng, w, ctx, ds, st, history, gen, res, next_actor: 100, step: 0, seen_col_rewrite: false, seen_defer_remap: false, lin, recreated: false })
             }
             Err(e) => {
                 res.violate("C11", "create", "create-failed", 0, e);
@@ -972,6 +989,8 @@ pub async fn run_seq(cfg: RunCfg) -> RunResult {
     let drawn = r.rng.range(4, 12) as u64;
     let nsteps = cfg.max_steps.map(|m| m.min(drawn)).unwrap_or(drawn);
     let mut state_hashes = BTreeSet::new();
+    let mut cache_sc = if cfg.prop == "C38" { r.cache_scenario_init().await } else { None };
+    let mut c42_tags: BTreeMap<String, u64> = BTreeMap::new();
     for step in 0..nsteps {
         r.step = step;
         let versions: Vec<u64> = r.history.keys().cloned().collect();
@@ -982,6 +1001,7 @@ pub async fn run_seq(cfg: RunCfg) -> RunResult {
         if cfg.skip.contains(&step) {
             continue;
         }
+        let nviol_before = r.res.violations.len();
         let outcome = guarded(async {
             let changed = r.do_op(&op).await;
             let prop = prop_for_op(&op);
@@ -1013,11 +1033,36 @@ pub async fn run_seq(cfg: RunCfg) -> RunResult {
             if prop_now == "C16" {
                 r.o_knobs(3).await;
             }
+            if prop_now == "C38" {
+                r.o_cache_diff(what).await;
+                if let Some(sc) = cache_sc.as_mut() {
+                    r.cache_scenario_step(sc).await;
+                }
+            }
+            if prop_now == "C42" && changed && r.rng.chance(0.2) {
+                let name = format!("t{}", c42_tags.len());
+                let v = r.ds.version().version;
+                if r.ds.tags().create(&name, v).await.is_ok() {
+                    c42_tags.insert(name, v);
+                }
+            }
         })
         .await;
         if let Err(p) = outcome {
             let prop = prop_for_op(&op);
             r.res.violate(prop, "panic", &format!("panic:{}", panic_sig(&p)), step, format!("panic during/after {}: {}", op.brief(), p));
+        }
+        if r.recreated {
+            // everything observed after a drop-and-recreate inside one session is attributed to
+            // cache transparency (stale entries keyed by version only)
+            for v in r.res.violations.iter_mut().skip(nviol_before) {
+                if !v.sig.ends_with(":after-recreate") {
+                    v.sig = format!("{}:after-recreate", v.sig);
+                    v.prop = "C38".into();
+                }
+            }
+        }
+        if r.res.violations.iter().any(|v| v.oracle == "panic") {
             break;
         }
         state_hashes.insert(crate::rng::mix(&[r.w.digest(), r.st.rows.len() as u64]));
@@ -1029,6 +1074,10 @@ pub async fn run_seq(cfg: RunCfg) -> RunResult {
     if r.res.violations.is_empty() {
         let fin = guarded(async {
             r.o_time_travel(usize::MAX).await;
+            if r.cfg.prop == "C42" {
+                r.o_copy_root(&c42_tags).await;
+                return;
+            }
             r.o_fresh("C38").await;
         })
         .await;
